@@ -12,6 +12,11 @@ CONSTANTS
     PRIOS <- PriosFull
     JUNK = {"garbage","empty","badma","nop2p"}
     MAXJUNK = 1
+    MAXIMPORTS = 1
+    FAULTS = {0}
+    MarshalStopsOnError = TRUE
+    TruncInLock = TRUE
+    MAXLOADS = 2
     REKEEP = FALSE
     MAXSAVES = 2
     ImportCleans = TRUE
